@@ -292,7 +292,8 @@ def r6_open_modes(ctx, rule="C18.R6"):
         "Input": ({"open"}, {"create", "truncate", "append", "write"}),
         "Output": ({"create"}, {"append"}),
         "Append": ({"append"}, {"truncate"}),
-        "Random": ({"read", "write"}, {"append"}),
+        # a random-access file keeps its records over CLOSE and re-OPEN: it must not be emptied
+        "Random": ({"read", "write"}, {"append", "truncate"}),
     }
     for mode, (need, forbid) in sorted(want.items()):
         tgt = sw.arms.get(mode, sw.otherwise)
